@@ -172,7 +172,7 @@ pub fn gen_step(s: &mut Pool2, rng: &mut Rng, ctx: &mut Ctx) -> Step {
             };
             let receiver = if rng.chance(1, 5) { Some(rng.idx(s.cfg.n_users)) } else { None };
             // 1, 2: native funds missing; 3: native assets mislabelled as cw20; 4: a foreign coin as second asset; 5: first asset twice
-            let funds_mode = if rng.chance(1, 9) { rng.range(1, 5) as u8 } else { 0 };
+            let funds_mode = if rng.chance(1, 9) { rng.range(1, 7) as u8 } else { 0 };
             Op::Provide { amounts, slippage, receiver, rev: rng.chance(1, 3), funds_mode }
         }
         1 if rng.chance(1, 8) => {
@@ -227,7 +227,7 @@ pub fn gen_step(s: &mut Pool2, rng: &mut Rng, ctx: &mut Ctx) -> Step {
             Op::Swap { side, amount, belief, max_spread, to }
         }
         3 => Op::Collect,
-        4 if rng.chance(1, 4) => Op::SetCollector { second: rng.chance(1, 2), to_pool: rng.chance(1, 4) },
+        4 if rng.chance(1, 4) => Op::SetCollector { second: rng.chance(1, 2), to_pool: rng.chance(1, 4), to_user: if rng.chance(1, 3) { Some(rng.idx(5)) } else { None } },
         4 => {
             // reuse the fee generator through a scratch cfg
             let mut r2 = Rng::new(rng.next_u64());
